@@ -1,0 +1,11 @@
+//go:build verif
+
+package lisp
+
+// VerifResetStepper clears the process-wide stepping flags so that verification
+// cases are independent of each other. Only built with the "verif" tag.
+func VerifResetStepper() {
+	skip = false
+	outing1 = false
+	outing2 = false
+}
